@@ -16,7 +16,7 @@ func init() {
 		Explanation: "Table/shape agreement over every operator closure of package interp (the arithmetic itself is done by Go's own operator on the 64-bit widening of the operands and reflect's SetInt/SetUint/SetFloat truncate to the destination kind, so wrap-around, truncation, sign extension and rounding follow from Go's semantics once operator, kind class and operand order are right): " +
 			"R02.1 every Go operator token of each syntactic class has a case in the AST builder and maps to the action spelled like it; R02.2 each action's generator (and constant folder) uses exactly the Go operator of its action in its run-time closures; " +
 			"R02.3 in every switch over reflect kinds, each case of one numeric class reads through that class's accessor/extractor and writes through that class's setter (shift counts excepted); R02.4 the left operand derives from child 0 and the right from child 1; " +
-			"R02.5 in branching closures the operator's truth goes with SetBool(true)/tnext and its falsity with SetBool(false)/fnext. Nothing is evaluated.",
+			"R02.5 in branching closures the operator's truth goes with SetBool(true)/tnext and its falsity with SetBool(false)/fnext; R02.7/R02.8 the 'store directly into the destination / result area' optimisations of cfg are unreachable for compound assignments and for multi-value returns with named results. Nothing is evaluated.",
 		Assumptions: []string{"reflect.Value accessors/setters and Go's own operators have their documented semantics", "the type rules of typecheck.go and convert (delegating to reflect.Value.Convert) are not decided here", "whether cfg allocates the result slot with the right kind is not decided here"},
 		Run:         runC02,
 	})
